@@ -8,7 +8,7 @@ open GlueVerif.C13
 #print axioms stack_le_max
 #print axioms empty_stack_errors
 #print axioms setup_wf
-#print axioms zipper_refinement_partial
+#print axioms zipper_refinement
 #print axioms masks_of_observe
 #print axioms spec_undo_after_do
 #print axioms spec_redo_after_undo
@@ -17,8 +17,8 @@ open GlueVerif.C13
 #print axioms old_undo_apply_new_group
 #print axioms old_redo_creates_nothing
 #print axioms old_undo_empty_collection
-#print axioms remove_undo_reorders
-#print axioms add_present_undo_removes
-#print axioms remove_absent_undo_appends
-#print axioms ideal_zipper_refinement
-#print axioms ideal_vs_impl
+#print axioms pre_f4b_remove_undo_reorders
+#print axioms pre_f4b_add_present_undo_removes
+#print axioms pre_f4b_remove_absent_undo_appends
+#print axioms pre_f4b_refinement_on_clean
+#print axioms impl_vs_pre_f4b
